@@ -41,6 +41,9 @@ CMP = "abcdefgh"     # zzq_cmp_<c>_mod: known names used only by `complete` ops 
 CHILD_TIMEOUT_S = 40
 MAX_PAR = max(2, min(14, (os.cpu_count() or 4) - 2))
 
+ODD_PATHS = [("zzq dir with space", "my script"), ("zzq+plus~tilde", "s+c~r"), ("zzq(paren)[1]", "scr(1)"),
+             ("zzq_\u00e9\u00e8_\u4e2d", "scr\u00efpt"), ("zzq#hash&amp", "a'b"), ("zzq=eq,comma@at{b}", "ok=1,2@x")]
+
 OPS = ["enable", "enable_again", "disable", "load_ext", "unload_ext", "reload_ext", "run_cell", "complete"]
 
 
@@ -67,6 +70,13 @@ def make_env(root):
         f.write("zzq_script_value = zzq_mod_20.VALUE + 1\nprint('script ran', zzq_script_value)\n")
     with open(os.path.join(mods, "zzq_script_plain.py"), "w") as f:
         f.write("zzq_plain_value = 41 + 1\nprint('plain script ran', zzq_plain_value)\n")
+    # scripts under unusual-but-legitimate paths (pyflyby's Filename class accepts only [a-zA-Z0-9_=+{}/.,~@-])
+    for j, (d, fn) in enumerate(ODD_PATHS):
+        os.makedirs(os.path.join(mods, d), exist_ok=True)
+        with open(os.path.join(mods, d, fn + "_plain.py"), "w") as f:
+            f.write(f"zzq_odd_value_{j} = {j} + 100\nprint('odd script {j} ran', zzq_odd_value_{j})\n")
+        with open(os.path.join(mods, d, fn + "_needs.py"), "w") as f:
+            f.write(f"zzq_odd_needs_{j} = zzq_mod_21.VALUE + {j}\nprint('odd script {j} ran', zzq_odd_needs_{j})\n")
     db = os.path.join(root, "db_good.py")
     with open(db, "w") as f:
         for i in range(N_MODS):
